@@ -147,6 +147,9 @@ def as_text(bs, mdl):
 def int_job(ck, prog, natbin, tname, D, quick):
     bits, signed, nonzero = INT_TYPES[tname]
     native = Native(natbin)
+    if not quick:
+        ck.timeout_ms = 300000       # the wide multiply-by-ten chains need more than the default minute on a few obligations
+        ck._s = None
     pol = Pol(D)
     # ---------------- from_string on an arbitrary ASCII string
     I = Interp(prog, models.all_models(OPTS), pol, timeout_ms=ck.timeout_ms)
@@ -392,7 +395,7 @@ def prepare(ck):
                  "unquoted_literal_digits": "syn's base10_digits: -?[0-9]+ up to the same length", "bool/char/String": "ASCII strings of length <= 5 / 3 / 3"}
     ck.outside = ["f32/f64 (std dec2flt is not encoded: floats are not claimed)", "non-ASCII strings", "PathBuf (OsString internals)",
                   "radix prefixes, underscores and suffixes of unquoted literals: stripped by syn when the LitInt is built (trusted: the digit string is the input)",
-                  "digit strings longer than the bound (128-bit types: up to 41 bytes in thorough)"]
+                  "digit strings longer than the bound (32 / 64 / 128-bit and pointer-sized types: 4 bytes quick, 6 / 5 / 4 bytes thorough, i.e. below their overflow boundary)"]
     ck.assumptions = ["LitInt::base10_digits() yields -?[0-9]+ (syn's contract)", "LitStr::value() is an arbitrary ASCII string"]
     prog = Program(build.dump_mir("hconv", opts=OPTS))
     natbin = build.build_native("hconv")
@@ -404,8 +407,8 @@ def prepare(ck):
             D = 4
         if quick and bits == 16:
             D = 5
-        if not quick and bits == 128:
-            D = 8
+        if not quick and bits >= 32:
+            D = 6 if bits == 32 else (5 if bits == 64 else 4)      # exact overflow boundaries are covered on the 8 / 16-bit instantiations of the same macro; 10+ symbolic digits do not finish within the tier
         ck.programs.add("FromMeta for %s" % t)
         jobs.append(lambda sub, t=t, D=D: int_job(sub, prog, natbin, t, D, quick))
     jobs.append(lambda sub: misc_job(sub, prog, natbin, quick))
